@@ -212,6 +212,12 @@ def np_qr(A, mode='reduced'):
                 for j in range(n):
                     R[i, j] = Sym.const(1 if i == j else 0)
             return A.copy(), R
+        # wide: Q := I_m (exactly orthonormal), R := A
+        Q = _np.empty((m, m), dtype=object)
+        for i in range(m):
+            for j in range(m):
+                Q[i, j] = Sym.const(1 if i == j else 0)
+        return Q, A.copy()
     raise Unmodelled('qr of a matrix that is neither registered nor quasi-diagonal')
 
 
